@@ -160,7 +160,7 @@ class CallMixin:
         for base in cls.__mro__[1:]:
             if meth in base.__dict__:
                 c = self.find_method_contract(base.__name__, meth)
-                args = [self.ev(a, st) for a in n.args]
+                args = self.eval_args(n, st, None)
                 kwargs = {k.arg: self.ev(k.value, st) for k in n.keywords}
                 if c is None:
                     # no contract: the parent's real body is executed (inlined through its AST)
@@ -193,6 +193,23 @@ class CallMixin:
         if isinstance(n.func, ast.Name) and n.func.id == "cast" and len(n.args) == 2 and n.func.id not in st.env:
             return self.ev(n.args[1], st)       # typing.cast(T, x) is x; the type expression is not evaluated
         f = self.ev(n.func, st)
+        args = self.eval_args(n, st, f)
+        kwargs = {}
+        for k in n.keywords:
+            if k.arg is None:
+                d = self.ev(k.value, st)
+                if isinstance(d, Ref) and isinstance(st.deref(d), DictV):
+                    kwargs.update(st.deref(d).items)
+                elif isinstance(d, dict):
+                    kwargs.update(d)
+                else:
+                    kwargs["**"] = d
+            else:
+                kwargs[k.arg] = self.ev(k.value, st)
+        return self.call(f, args, kwargs, st, n)
+
+    def eval_args(self, n, st, f):
+        """positional arguments of the call node n, star-arguments of a concrete tuple / list expanded"""
         args = []
         for a in n.args:
             if isinstance(a, ast.Starred):
@@ -207,19 +224,7 @@ class CallMixin:
                     raise Unsupported("star-args of a symbolic sequence")
             else:
                 args.append(self.ev(a, st))
-        kwargs = {}
-        for k in n.keywords:
-            if k.arg is None:
-                d = self.ev(k.value, st)
-                if isinstance(d, Ref) and isinstance(st.deref(d), DictV):
-                    kwargs.update(st.deref(d).items)
-                elif isinstance(d, dict):
-                    kwargs.update(d)
-                else:
-                    kwargs["**"] = d
-            else:
-                kwargs[k.arg] = self.ev(k.value, st)
-        return self.call(f, args, kwargs, st, n)
+        return args
 
     def call(self, f, args, kwargs, st, node=None):
         if isinstance(f, OpaqueV) and f.kind == "for_stdout" and len(args) == 1 and isinstance(args[0], Sym) and args[0].tag == "line":
@@ -280,12 +285,19 @@ class CallMixin:
             for p in params[len(args):]:
                 if p in kwargs:
                     args.append(kwargs.pop(p))
-            if len(params) != len(args) or kwargs:
+            extra = None
+            if node.args.vararg is not None and len(args) >= len(params) and not kwargs:
+                extra = tuple(args[len(params):])           # def helper(a, *rest): the surplus positional arguments as a tuple
+                args = args[:len(params)]
+            if len(params) != len(args) or kwargs or node.args.kwonlyargs or node.args.kwarg is not None or \
+                    (node.args.vararg is not None and extra is None):
                 raise Unsupported("inlined helper arity")
             saved = st.env
             saved_mod = self.module
             st.env = dict(f.env)
             st.env.update(zip(params, args))
+            if extra is not None:
+                st.env[node.args.vararg.arg] = extra
             if f.module is not None:
                 self.module = f.module          # globals of an inlined body resolve in the module that defines it
             self._inline_depth = getattr(self, "_inline_depth", 0) + 1
@@ -295,8 +307,8 @@ class CallMixin:
                 self._inline_depth -= 1
                 env_after, st.env = st.env, saved
                 self.module = saved_mod
-            if allow_none_return and len(outs) == 1 and outs[0][1] == ("normal",) and outs[0][0] is st:
-                return None
+            if len(outs) == 1 and outs[0][1] == ("normal",) and outs[0][0] is st:
+                return None         # falling off the end of a function returns None
             if len(outs) == 1 and outs[0][1][0] == "raise" and outs[0][0] is st:
                 raise PyRaise(outs[0][1][1], note=f"raised by inlined helper {f.name}")
             if len(outs) != 1 or outs[0][1][0] != "return" or outs[0][0] is not st:
@@ -718,6 +730,10 @@ class CallMixin:
                     first = self.elem_value(o.tag, o.t[0] if o.origin is None else o.origin[0][o.origin[1]])
                     o.t, o.origin = z3.SubSeq(o.t, 1, n - 1), None
                     return first
+                if name == "clear" and not args and not kwargs:
+                    self.mutate_check(o, st, "clear")       # x.clear() is del x[:]
+                    o.items, o.t, o.origin = [], None, None
+                    return None
                 if name in ("insert", "remove", "sort", "reverse", "clear", "pop"):
                     self.mutate_check(o, st, name)
                     raise Unsupported(f"list.{name}")
@@ -748,7 +764,9 @@ class CallMixin:
                 return self._cm_inline(recv, st, name, list(args))
             if isinstance(o, ObjV):
                 c = self.find_method_contract(o.cls, name)
-                if c is None and name in (getattr(self.contract, "inline_methods", ()) or ()):
+                if c is None and (name in (getattr(self.contract, "inline_methods", ()) or ())
+                                  or (name.startswith("_") and not name.startswith("__"))):
+                    # (a private method without a contract of its own is a helper of the method under verification: executed in place)
                     # a small helper method of the same object: its real body is executed
                     import sys as _sys
                     for modname in self.MODS:
@@ -801,6 +819,14 @@ class CallMixin:
                 return st.alloc(ListV(items=list(recv.values())))
             if name == "get" and not isinstance(args[0], (Sym, Ref)):
                 return recv.get(*args)
+            if name == "get" and isinstance(args[0], Sym) and args[0].tag in ("int", "str", "bytes") and 1 <= len(args) <= 2 and not kwargs:
+                # TABLE.get(key[, default]) on a constant table with a symbolic key: TABLE[key] if key in TABLE else default
+                try:
+                    return self.table_lookup(recv, args[0], st)
+                except PyRaise as e:
+                    if e.cls != "KeyError":
+                        raise
+                    return args[1] if len(args) > 1 else None
         if isinstance(recv, ClassV):
             c = self.find_method_contract(recv.name, name)
             if c is not None:
